@@ -38,8 +38,9 @@ SEND_MOD = ["self.state", "self._outgoing_buffer"]
 contract("_messages:LDAPMessage.pack",
          params={"self": "sym:LDAPMessage", "options": "sym:PackingOptions"},
          requires=[], ensures=["result == enc(self, options)", "len(result) >= 2"], raises={}, trusted=True,
-         note="L3 abstraction of the encoder: a total function of the message value and the options (messages whose "
-              "strings are not encodable are outside 'arguments conform to their annotations'); related to RFC 4511 in contracts/messages.py")
+         note="L3 abstraction of the encoder: a function of the message value and the options. Assumed: determinism (equal values give equal octets). "
+              "Discharged from the body under the key _messages:LDAPMessage.pack[totality] (contracts/encode.py): it returns at least two octets for every "
+              "message value and raises nothing but UnicodeEncodeError (text without an encoding: outside 'arguments conform to their annotations')")
 
 # ------------------------------------------------------------------------------------------------ drain (C12)
 for _cls in ("LDAPClient", "LDAPServer"):
